@@ -1,2 +1,6 @@
-import Blackbird
-#print axioms Blackbird.dictGet
+import Blackbird.Props.C08
+#print axioms Blackbird.C08_rrt_pairing
+#print axioms Blackbird.C08_rrt_symbols
+#print axioms Blackbird.C08_rrt_regrefs
+#print axioms Blackbird.C08_wrapped_iff
+#print axioms Blackbird.C08_plain_values_stay
